@@ -38,6 +38,8 @@ type verifFeed struct {
 	self   int    // index of the genesis node this replica runs as
 	cursor uint64 // timeline cursor for generated snapshot timestamps
 	custodians []common.Address // custodian accounts installed by the harness after genesis
+	extraKeys  map[crypto.Hash]crypto.Key // signer keys of nodes that joined after genesis
+	pledges    int
 }
 
 // verifEpochUnix places the network epoch well in the past so that every
@@ -48,21 +50,32 @@ func verifEpochUnix() int64 {
 }
 
 func verifNewFeed(tb testing.TB, label string, nodes int, rng *rand.Rand, dir string, wrap func(*storage.BadgerStore) storage.Store) *verifFeed {
+	return verifNewFeedAt(tb, label, nodes, rng, dir, wrap, verifEpochUnix(), 0)
+}
+
+// verifNewFeedAt places the epoch explicitly and starts the timeline startDay days after it
+// (mints only exist from batch 1707 on, so mint histories need an epoch ~5 years back).
+func verifNewFeedAt(tb testing.TB, label string, nodes int, rng *rand.Rand, dir string, wrap func(*storage.BadgerStore) storage.Store, epochUnix int64, startDay uint64) *verifFeed {
 	tb.Helper()
 	internal.ToggleMockRunAggregators(true)
 	if err := os.MkdirAll(dir, 0o755); err != nil {
 		tb.Fatal(err)
 	}
-	net, err := verifgen.NewNet(label, nodes, verifEpochUnix(), dir)
+	net, err := verifgen.NewNet(label, nodes, epochUnix, dir)
 	if err != nil {
 		tb.Fatal(err)
 	}
 	f := &verifFeed{tb: tb, net: net, dir: dir, rng: rng, wrap: wrap}
-	f.cursor = net.Epoch + uint64(time.Hour)
+	f.cursor = net.Epoch + startDay*OneDay + uint64(time.Hour)
 	if err := f.boot(); err != nil {
 		tb.Fatal(err)
 	}
 	return f
+}
+
+// verifMintEpochUnix is an epoch far enough back for universal mints (batch > 1706).
+func verifMintEpochUnix() int64 {
+	return time.Now().Unix()/86400*86400 - 1800*86400
 }
 
 func (f *verifFeed) boot() error {
@@ -234,12 +247,27 @@ func (f *verifFeed) sign(s *common.Snapshot, extra int) ([]crypto.Hash, error) {
 		}
 	}
 	sort.Ints(perm)
-	return verifSignWith(f.net, s, cids, publics, perm)
+	return verifSignWithKeys(f.keyOf, s, cids, publics, perm)
 }
 
 // verifSignWith runs the CoSi protocol (commit, aggregate, respond, strict
 // aggregate) for the signers at the given positions of the key vector.
 func verifSignWith(net *verifgen.Net, s *common.Snapshot, cids []crypto.Hash, publics []*crypto.Key, positions []int) ([]crypto.Hash, error) {
+	return verifSignWithKeys(net.SignerKeyOf, s, cids, publics, positions)
+}
+
+// keyOf returns the signer key of a genesis node or of a node that joined later.
+func (f *verifFeed) keyOf(id crypto.Hash) *crypto.Key {
+	if k := f.net.SignerKeyOf(id); k != nil {
+		return k
+	}
+	if k, ok := f.extraKeys[id]; ok {
+		return &k
+	}
+	return nil
+}
+
+func verifSignWithKeys(keyOf func(crypto.Hash) *crypto.Key, s *common.Snapshot, cids []crypto.Hash, publics []*crypto.Key, positions []int) ([]crypto.Hash, error) {
 	nonces := make(map[int]*crypto.CosiNonce)
 	commitments := make(map[int]*crypto.Key)
 	for _, i := range positions {
@@ -255,7 +283,7 @@ func verifSignWith(net *verifgen.Net, s *common.Snapshot, cids []crypto.Hash, pu
 	responses := make(map[int]*[32]byte)
 	var signers []crypto.Hash
 	for _, i := range positions {
-		priv := net.SignerKeyOf(cids[i])
+		priv := keyOf(cids[i])
 		if priv == nil {
 			return nil, fmt.Errorf("no private key for consensus member %s", cids[i])
 		}
